@@ -48,6 +48,10 @@ def cases(tier, seed):
     for est in (["turnout"], ["dem"], ["turnout", "dem"]):
         for pm in ("nonparametric", "gaussian"):
             out.append({"kind": "historical", "estimands": est, "pm": pm, "seed": seed})
+    # district office with three-part unit ids: an unexpected unit's count may only move its own district / county groups
+    for setup in ("np1", "ga1", "bs1"):
+        for county in ("AAc0", "AAcN"):
+            out.append({"kind": "pair_h", "setup": setup, "county": county, "seed": seed})
     # gaussian, groups that mix own calibration models and fallbacks (structures of C15): the outstanding unit of one
     # county is perturbed, every other county / the other state must not move
     import itertools
@@ -118,6 +122,18 @@ def _pair_case(case, cov, viol):
     return _perturb_and_compare(case, cov, viol, units, probe, cfg, st, ("postal_code", "county_fips", "county_classification"))
 
 
+def _pair_h_case(case, cov, viol):
+    cfg = S.cfg_for(case["setup"], "pc_d_cf", "drop", 100, office="H")
+    w = "twoparty" if cfg["pi_method"] == "bootstrap" else "turnout"
+    units = E.background(case["seed"], "H", 30, "AA2", partial=3)
+    probe = E.make_probe(case["seed"], 0, "unexpected", "pop0", "H", "10", weights=w)
+    probe.update(id=f"10_{case['county']}_x0", county=case["county"])
+    units.append(probe)
+    units.append(E.make_probe(case["seed"], 1, "nonrep_partial", "pop1", "H", "2", weights=w))
+    cov["district_office_pairs"] += 1
+    return _perturb_and_compare(dict(case, outlier=False), cov, viol, units, probe, cfg, "unexpected:district-office", ("postal_code", "district", "county_fips"), office="H")
+
+
 def _gstruct_case(case, cov, viol):
     from . import c15
 
@@ -131,7 +147,7 @@ def _gstruct_case(case, cov, viol):
     return _perturb_and_compare(dict(case, outlier=False), cov, viol, units, probe, cfg, "nonrep_partial:mixed-gaussian-models", ("postal_code", "county_fips"))
 
 
-def _perturb_and_compare(case, cov, viol, units, probe, cfg, st, levels):
+def _perturb_and_compare(case, cov, viol, units, probe, cfg, st, levels, office="G"):
     pm = cfg["pi_method"]
     base = E.run_estimates(units, cfg)
     if "error" in base:
@@ -167,7 +183,7 @@ def _perturb_and_compare(case, cov, viol, units, probe, cfg, st, levels):
         own_a, own_b = ua[(probe["id"],)], ub[(probe["id"],)]
         for level in levels:
             tname = R.LEVEL_TABLE[level]
-            cols = R.key_columns(level, "G")
+            cols = R.key_columns(level, office)
             ra, rb = _rows(base["ok"][tname], cols), _rows(pert["ok"][tname], cols)
             key = tuple(R.unit_key(p2, cats[probe["id"]], c, cfg) for c in cols)
             inside = all(k is not None for k in key) and not ("county_classification" in cols and cats[probe["id"]]["kind"] == "passthrough")
@@ -248,7 +264,11 @@ def _historical_case(case, cov, viol):
             os.chdir(cwd0)
             shutil.rmtree(scratch, ignore_errors=True)
 
-    base = run(hist_frame())
+    try:
+        base = run(hist_frame())
+    except Exception as e:
+        viol(f"historical-run-raised:{pm}", f"estimands={est}: the historical evaluation raised {type(e).__name__}: {str(e)[:200]}")
+        return 1, True
     runs = 1
     for target in nonrep:
         for mult, add in ((0, 0), (3, 0), (1, 1), (40, 1000)):
@@ -279,9 +299,11 @@ def evaluate(case):
         runs, nontriv = _pair_case(case, cov, viol)
     elif case["kind"] == "gstruct":
         runs, nontriv = _gstruct_case(case, cov, viol)
+    elif case["kind"] == "pair_h":
+        runs, nontriv = _pair_h_case(case, cov, viol)
     else:
         runs, nontriv = _historical_case(case, cov, viol)
     return {"violations": V, "cov": dict(cov), "outcome": sha([v["sig"] for v in V] + [runs]), "nontrivial": nontriv, "transitions": runs}
 
 
-REQUIRED_COUNTERS = {"pairs": 300, "containing_group_deltas": 200, "historical_pairs": 30}
+REQUIRED_COUNTERS = {"pairs": 300, "containing_group_deltas": 200, "historical_pairs": 30, "district_office_pairs": 6}
